@@ -53,14 +53,14 @@ def Fn.isWait (f : Fn) : Bool := f.special && f.name == "waituntil"
 /-- `PulseAtoms.waituntil` the callable (what the forger substitutes for the string) -/
 def Fn.waitCallable : Fn :=
   { special := false, name := "waituntil", qual := "function PulseAtoms.waituntil",
-    params := ["dummy", "SR", "npts"], shape := .zeros }
+    params := (Gen.pulseSignatures.lookup "waituntil").getD [], shape := .zeros }
 
 def Fn.waitSpecial : Fn :=
   { special := true, name := "waituntil", qual := "waituntil", params := [], shape := .zeros }
 
 def Fn.rampFn : Fn :=
   { special := false, name := "ramp", qual := "function PulseAtoms.ramp",
-    params := ["start", "stop", "SR", "npts"], shape := .ramp }
+    params := (Gen.pulseSignatures.lookup "ramp").getD [], shape := .ramp }
 
 abbrev Mark := Rat × Rat   -- (t_on | delay, duration)
 
